@@ -8,7 +8,9 @@ from vlib import Case, hx, unhx
 PROP = "C13"
 PROOF_FILES = ["Properties/C13.v"]
 RULE = ("byte strings through ComputeCRC: all strings of length 0..2 (65 793, complete); single-bit strings (one bit set, "
-        "rest zero) and all-zero strings; one random string of every length 0..1024; random strings up to 4 KiB and a few up to 64 KiB; known-answer vectors; residue calls; a case is "
+        "rest zero) and all-zero strings; one random string of every length 0..1024; random strings up to 4 KiB and a few up to 64 KiB; known-answer vectors; residue calls; the real emitters (FilterPMTPacketsToPids on generated PMTs of 1..27 streams in 1..3 packets, "
+        "SCTE35.UpdateData on generated splice_null / time_signal / splice_insert messages with 0..3 segmentation descriptors) whose output "
+        "sections are put through the receivers' CRC check; a case is "
         "non-trivial when it is a distinct request line (every byte string is inside the property's domain)")
 EXHAUSTIVE = True
 EXHAUSTIVE_NOTE = ("lengths 0..2 are enumerated completely on every run. Single-bit strings: quick = every bit position for "
@@ -57,6 +59,107 @@ def coqchk_audit():
     TRUSTED_EXTRA.append("coqchk -silent -o Gots.Properties.C13 (this run): " + summary)
     AUDIT["ok"], AUDIT["text"] = ok, summary
     return ok
+
+
+def be32(x):
+    return x.to_bytes(4, "big")
+
+
+def pmt_packets(rng, pid, streams, prog_info, pointer=0, version=1):
+    """a PMT section (ISO 13818-1 2.4.4.8) with a correct CRC, packetised into 188-byte packets of PID pid"""
+    pcr_pid = streams[0][1] if streams else 0x1fff
+    body = bytes([0, 1, 0xC1 | (version << 1), 0, 0, 0xE0 | (pcr_pid >> 8), pcr_pid & 0xff,
+                  0xF0 | (len(prog_info) >> 8), len(prog_info) & 0xff]) + prog_info
+    for (st, epid, info) in streams:
+        body += bytes([st, 0xE0 | (epid >> 8), epid & 0xff, 0xF0 | (len(info) >> 8), len(info) & 0xff]) + info
+    sl = len(body) + 4
+    sec = bytes([0x02, 0xB0 | (sl >> 8), sl & 0xff]) + body
+    sec += be32(table_crc(sec))
+    payload = bytes([pointer]) + b"\xff" * pointer + sec
+    pkts = b""
+    cc = 0
+    first = True
+    while payload or first:
+        chunk, payload = payload[:184], payload[184:]
+        chunk = chunk + b"\xff" * (184 - len(chunk))
+        pkts += bytes([0x47, (0x40 if first else 0) | (pid >> 8), pid & 0xff, 0x10 | cc]) + chunk
+        cc = (cc + 1) & 15
+        first = False
+    return pkts
+
+
+def desc_loop(rng, n):
+    """n well-formed descriptors (tag, length, body)"""
+    out = b""
+    for _ in range(n):
+        body = bytes(rng.randrange(256) for _ in range(rng.choice((0, 1, 3, 4, 4, 8))))
+        out += bytes([rng.choice((0x0a, 0x05, 0x52, 0x0e, 0x86, 0xcc, rng.randrange(256))), len(body)]) + body
+    return out
+
+
+def emitter_cases(rng, tier):
+    """the real emitters: FilterPMTPacketsToPids and SCTE35.UpdateData; what they return is judged by residue_check"""
+    out = []
+    n = 150 if tier == "quick" else 4000
+    for i in range(n):
+        ns = rng.randrange(1, 9 if i % 5 else 28)
+        pids = rng.sample(range(0x20, 0x1ffe), ns)
+        streams = []
+        for epid in pids:
+            info = desc_loop(rng, rng.choice((0, 0, 1, 1, 2, 4)))
+            streams.append((rng.choice((0x02, 0x1b, 0x24, 0x0f, 0x81, 0x86, 0x06, rng.randrange(256))), epid, info))
+        prog_info = desc_loop(rng, rng.choice((0, 0, 1, 2)))
+        pmt_pid = rng.randrange(0x20, 0x1ffe)
+        pk = pmt_packets(rng, pmt_pid, streams, prog_info, pointer=rng.choice((0, 0, 0, 1, 5)), version=rng.randrange(32))
+        keep = rng.sample(pids, rng.randrange(1, ns + 1))
+        if i % 7 == 0:
+            keep.append(0x1ffe)   # a PID that is not in the PMT: packets and an error
+        out.append(Case("crc.emit.pmt %s [ %s ]" % (hx(pk), " ".join(str(p) for p in keep)), kind="emit-filtered-pmt",
+                        theorem="C13_emitted_section_residue_ok"))
+    for i in range(n):
+        cmd = i % 3
+        descs = []
+        for _ in range(rng.choice((0, 0, 1, 2, 3))):
+            descs.append("[ %d %d %d %d %s %d ]" % (rng.randrange(1 << 32), rng.choice((0x10, 0x11, 0x30, 0x31, 0x34, 0x35, 0x36, 0x40, 0x50)),
+                                                  rng.randrange(2), rng.randrange(1 << 33),
+                                                  hx(bytes(rng.randrange(256) for _ in range(rng.choice((0, 0, 8, 12))))),
+                                                  rng.choice((0, 1, 3, 8, 9, 12))))
+        out.append(Case("crc.emit.scte %d %d %d %d [ %s ]" % (cmd, rng.randrange(1 << 12), rng.randrange(1 << 33), rng.choice((0, 0, 1, 4)),
+                                                          " ".join(descs)), kind="emit-splice-info-section",
+                        theorem="C13_emitted_section_residue_ok"))
+    return out
+
+
+def residue_check(c, real):
+    """the receivers' check (register zero over the whole section incl. CRC_32) on what the real emitter returned"""
+    v = vlib.parse_val(real)
+    if c.kind == "emit-splice-info-section":
+        if not isinstance(v, (bytes, bytearray)) or len(v) < 7:
+            return "UpdateData() returned %s" % real[:200]
+        sl = ((v[1] & 0x0f) << 8) | v[2]
+        if 3 + sl != len(v):
+            return "UpdateData(): section_length %d does not match the %d bytes returned" % (sl, len(v))
+        if table_crc(v) != 0:
+            return "encoded splice_info_section fails the CRC check: residue %08x, CRC field %s, required %08x" % (
+                table_crc(v), v[-4:].hex(), table_crc(v[:-4]))
+        return ""
+    if not isinstance(v, list) or len(v) != 2:
+        return "FilterPMTPacketsToPids: unexpected reply %s" % real[:200]
+    cat, code = v
+    if len(cat) == 0:
+        return "" if code != 0 else "FilterPMTPacketsToPids returned no packets and no error"
+    pay = b"".join(cat[i + 4:i + 188] for i in range(0, len(cat), 188))
+    sec = pay[1 + pay[0]:]
+    if len(sec) < 3:
+        return "filtered PMT: no section in the returned packets"
+    sl = ((sec[1] & 0x0f) << 8) | sec[2]
+    if len(sec) < 3 + sl or sl < 4:
+        return "filtered PMT: section_length %d exceeds the %d bytes returned" % (sl, len(sec))
+    sec = sec[:3 + sl]
+    if table_crc(sec) != 0:
+        return "filtered PMT section fails the CRC check: residue %08x, CRC field %s, required %08x" % (
+            table_crc(sec), sec[-4:].hex(), table_crc(sec[:-4]))
+    return ""
 
 
 def gen(rng, tier):
@@ -135,6 +238,7 @@ def gen(rng, tier):
         out.append(Case("crc.spec " + hx(bytes([rng.randrange(256), rng.randrange(256)])), kind="spec-direct",
                         theorem="C13_compute_crc_is_mpeg2"))
     out.append(Case("crc.residue x", kind="residue", theorem="C13_residue_zero"))
+    out += emitter_cases(rng, tier)
     return out
 
 
@@ -142,6 +246,11 @@ def oracle(c, real, model):
     """the property fixes the reply completely, so the real reply is also checked against the table-driven CRC"""
     if c.kind == "coqchk-audit":
         return "coqchk does not confirm the proofs of Properties/C13.v as axiom-free: " + AUDIT.get("text", "")
+    if c.kind.startswith("emit-"):
+        try:
+            return residue_check(c, real)
+        except Exception as e:
+            return "emitter reply cannot be read (%s): %s" % (e, real[:200])
     op, _, arg = c.line.partition(" ")
     try:
         data = unhx(arg.strip())
@@ -156,6 +265,8 @@ def oracle(c, real, model):
 
 
 def shrink(c):
+    if c.kind.startswith("emit-"):
+        return
     op, _, arg = c.line.partition(" ")
     b = unhx(arg.strip())
     n = len(b)
@@ -172,6 +283,10 @@ def shrink(c):
 
 def case_of_line(line, kind):
     op = line.split(" ")[0]
+    if op == "crc.emit.pmt":
+        return Case(line, kind="emit-filtered-pmt", theorem="C13_emitted_section_residue_ok")
+    if op == "crc.emit.scte":
+        return Case(line, kind="emit-splice-info-section", theorem="C13_emitted_section_residue_ok")
     return Case(line, kind=kind, theorem="C13_residue_zero" if op == "crc.residue" else "C13_compute_crc_is_mpeg2")
 
 
